@@ -223,44 +223,63 @@ func keysOf(m map[string]bool) []string {
 
 func ruleElisionAgreement(e *Engine, r *Reporter) {
 	r.Rule("cache-record-roundtrip", "every field the caching iterators write into a cached record is read back when the tuple is rebuilt, and every field blanked because the iterator knows it is restored from the iterator's own value", 10)
-	type pair struct{ wPkg, w, rPkg, rd, typ string }
-	for _, p := range []pair{
-		{"pkg/storage/storagewrappers", "cachedIterator.addToBuffer", "pkg/storage/storagewrappers", "cachedTupleIterator.buildTuple", "TupleRecord"},
-		{"pkg/storage/storagewrappers", "CachingIterator.flush", "pkg/storage/storagewrappers", "LockFreeCachedIterator.reconstruct", "MinimalCacheEntry"},
-	} {
-		w := e.Func(p.wPkg, p.w)
-		rd := e.Func(p.rPkg, p.rd)
-		written := structFieldsWritten(w, p.typ)
-		read := e.structFieldsReadFromParam(rd, p.typ)
+	// writer and reader are found by role, not by name: the writer is the storagewrappers function that stores the
+	// most fields into a value of the record type; the reader is the one that takes a record and returns a tuple
+	pkg := "pkg/storage/storagewrappers"
+	for _, typ := range []string{"TupleRecord", "MinimalCacheEntry"} {
+		var w, rd *ssa.Function
+		best := 0
+		for _, fn := range e.Fns {
+			if short(pkgOf(fn)) != pkg || fn.Parent() != nil {
+				continue
+			}
+			if n := len(structFieldsWritten(fn, typ)); n > best {
+				best, w = n, fn
+			}
+			res := fn.Signature.Results()
+			if res.Len() >= 1 && typeBaseName(derefType(res.At(0).Type())) == "Tuple" && len(e.structFieldsReadFromParam(fn, typ)) >= 2 {
+				rd = fn
+			}
+		}
+		if w == nil || rd == nil {
+			blind("cache-record-roundtrip: writer or reader of %s not found in %s", typ, pkg)
+		}
+		written := structFieldsWritten(w, typ)
+		read := e.structFieldsReadFromParam(rd, typ)
 		if len(written) < 3 {
-			blind("cache-record-roundtrip: %s writes only %v of %s", fname(w), keysOf(written), p.typ)
+			blind("cache-record-roundtrip: %s writes only %v of %s", fname(w), keysOf(written), typ)
+		}
+		recName := ""
+		for _, p := range rd.Params {
+			if typeBaseName(derefType(p.Type())) == typ {
+				recName = paramName(p)
+			}
 		}
 		for _, f := range keysOf(written) {
-			r.Check(read[f], fmt.Sprintf("%s -> %s field=%s", p.w, p.rd, f), e.pos(rd.Pos()), "written and read back", fmt.Sprintf("field %s is stored in the cached record but not used when the tuple is rebuilt: cached reads return tuples that differ from the uncached ones", f))
+			r.Check(read[f], fmt.Sprintf("%s record field=%s", typ, f), e.pos(rd.Pos()), "written by "+shortFuncName(w)+" and read back by "+shortFuncName(rd), fmt.Sprintf("field %s is stored in the cached record (%s) but not used when the tuple is rebuilt (%s): cached reads return tuples that differ from the uncached ones", f, shortFuncName(w), shortFuncName(rd)))
 		}
-		// blanked fields are restored through a merge (phi) of the record's value and a receiver field
-		for _, f := range keysOf(structFieldsBlanked(w, p.typ)) {
+		// blanked fields are restored through a merge (phi) of the record's value and a value the iterator holds
+		for _, f := range keysOf(structFieldsBlanked(w, typ)) {
 			restored := false
 			eachInstr(rd, false, func(in ssa.Instruction) {
 				ph, ok := in.(*ssa.Phi)
 				if !ok {
 					return
 				}
-				fromRec, fromRecv := false, false
+				fromRec, fromOther := false, false
 				for _, ed := range ph.Edges {
 					d := describe_(ed)
-					if strings.HasSuffix(d, "."+f) && !strings.HasPrefix(d, "recv.") {
+					if strings.HasPrefix(d, recName+".") && strings.HasSuffix(d, "."+f) {
 						fromRec = true
-					}
-					if strings.HasPrefix(d, "recv.") {
-						fromRecv = true
+					} else if !strings.HasPrefix(d, recName+".") && d != `""` {
+						fromOther = true
 					}
 				}
-				if fromRec && fromRecv {
+				if fromRec && fromOther {
 					restored = true
 				}
 			})
-			r.Check(restored, fmt.Sprintf("%s -> %s elided=%s", p.w, p.rd, f), e.pos(rd.Pos()), "elided value restored from the iterator", fmt.Sprintf("field %s is blanked in the cached record when the iterator knows it, but the rebuild does not substitute the iterator's value: cached tuples come back with an empty %s", f, f))
+			r.Check(restored, fmt.Sprintf("%s record elided=%s", typ, f), e.pos(rd.Pos()), "elided value restored from the iterator", fmt.Sprintf("field %s is blanked in the cached record when the iterator knows it, but the rebuild does not substitute the iterator's value: cached tuples come back with an empty %s", f, f))
 		}
 	}
 }
